@@ -117,7 +117,7 @@ class BX:
     def replay_one(self, binary, f):
         cell = dict(kv.split('=') for kv in f.get('cell', '').split(',') if '=' in kv)
         cmd = [binary, '--one', '--prop', f['prop'], '--kind', f['kind'], '--params', f['params'], '--strings', f['strings'], '--src', f['src'],
-               '--sigma', cell.get('sigma', '2'), '--L', cell.get('L', '2'), '--stretch', cell.get('stretch', '1'), '--pal', cell.get('pal', 'abc'), '--nf', cell.get('nf', '2')]
+               '--sigma', cell.get('sigma', '2'), '--L', cell.get('L', '2'), '--stretch', cell.get('stretch', '1'), '--pal', cell.get('pal', 'abc'), '--nf', cell.get('nf', '2'), '--pre', cell.get('pre', '0')]
         keys = []
         for _ in range(2):
             p = subprocess.run(cmd, stdout=subprocess.PIPE, stderr=subprocess.PIPE, text=True)
